@@ -408,7 +408,14 @@ func baseStrategyTypes() []string {
 	return out
 }
 
+var wrapperStrategyTypes = []string{"strategy.AndStrategy", "strategy.OrStrategy", "strategy.MajorityStrategy", "strategy.SplitStrategy",
+	"strategy/compound.MacdRsiStrategy", "strategy/decorator.InverseStrategy", "strategy/decorator.NoLossStrategy", "strategy/decorator.StopLossStrategy"}
+
+// randStrategySpec picks a sub-strategy for a wrapper: mostly base strategies, sometimes (one level deep) another wrapper.
 func (c *Ctx) randStrategySpec(maxP, depth int) Spec {
+	if depth <= 1 && c.Rng.IntN(4) == 0 {
+		return c.randSpec(wrapperStrategyTypes[c.Rng.IntN(len(wrapperStrategyTypes))], maxP, depth, true)
+	}
 	bs := baseStrategyTypes()
 	return c.randSpec(bs[c.Rng.IntN(len(bs))], maxP, depth, true)
 }
